@@ -20,6 +20,26 @@ check names:  "<Class>.<last mutator>/fresh-twin", "<Class>.<last mutator>/cache
               and the quarantined one-step probes listed in the registry under their own names
               (they are also spelled out at the end of the report's `scope`).
 
+History families (specs/stateful_histories.py) for Surrogates and RecurrencePlot: the alphabet
+consists of concrete calls, so a call is repeated with equal arguments, with other arguments and
+interleaved with other state changes (Surrogates: normalize_original_data, embedding assignment,
+twin_surrogates(dim, delay, threshold, min_dist) x3, twins(threshold, min_dist) x2,
+original_distribution [+ test_threshold_significance in thorough]; RecurrencePlot in three
+variants (two-level / supremum, periodic / euclidean / dim 2, walk / manhattan / dim 3):
+set_fixed_threshold x2, set_fixed_recurrence_rate x2, set_fixed_local_recurrence_rate, embedding
+assignment x2 [+ threshold_std, adaptive neighbourhood size in thorough]).  A step that returns a
+value is compared with the same call on a fresh object built from the model of the inputs before
+the step; after every step (mode "every") or only after the last one (mode "final": nothing but
+the steps themselves fills the caches) every derived quantity (Surrogates: original_data,
+embedding, twins x3, recurrence_plot of the embedding x2, original_data_fft, the four seeded
+surrogate generators; RecurrencePlot: embedding and every discovered public query incl. R,
+recurrence_rate, determinism, diagline_dist, twins, twin_surrogates) is compared with a fresh
+object built from the current model (NumPy row normalisation / delay embedding; the model never
+reads the object under test).  No cache_clear() in these histories.  Data have mean / spread far
+from (0, 1); two-level and periodic series so that twins exist.
+check names:  "<Class>.<method of the last executed step>/history-twin",
+              "<Class>.<method>/history-step-raises", "<Class>.__init__/history-twin"
+
 Details: the population sweeps (before / between mutators) call all cached queries and all
 queries cheaper than 1.5 ms in a fixed order; the final sweep calls every query in an order
 that depends on the history, so that state kept outside the cache cannot be refreshed by a
@@ -338,12 +358,20 @@ def main():
              "(<=1 for variant / data-derived climate classes) + seeded samples of length 3 (and 2); thorough "
              "= all of length <=3 (<=2 for those classes) + seeded samples of length 4 (and 3).  All public "
              "queries (100-260 labelled call patterns for network classes) are evaluated before and after "
-             "every mutator.  Tolerance: exact for integers, rtol 1e-9 (float64) / 1e-5 (float32 results).")
+             "every mutator.  Tolerance: exact for integers, rtol 1e-9 (float64) / 1e-5 (float32 results).  "
+             "History families with concrete calls (equal and different arguments repeated; value-returning "
+             "steps compared with the same call on a fresh object; all derived quantities compared after every "
+             "step and, in a second run, only after the last step): Surrogates (3 series x 48 samples: two-level, "
+             "periodic, noisy; offsets 16 / 7 / -5, spreads 4 / 2.1 / 1.8; alphabet of 9 calls, 10 in thorough) "
+             "and RecurrencePlot in 3 variants (24 samples; alphabet of 7 calls, 9 in thorough): quick = all "
+             "histories of length <=3 + 60 of length 4, thorough = all of length <=4 + 300 / 100 of length 5 / 6.")
     rule = ("case = (class, history); after the last mutator every query is compared with a fresh twin "
             "built from the current primary inputs and with the object after cache_clear(); evaluations "
             "counts query comparisons; a case is non-trivial when the last mutator changed at least one "
             "query result of the object (so a stale value would be visible); RNG is re-seeded before "
-            "every query call, queries that differ between two fresh objects are listed in `skipped`")
+            "every query call, queries that differ between two fresh objects are listed in `skipped`; "
+            "history families: case = (family, history, mode), non-trivial when the last step changed the "
+            "model of the primary inputs or returned a value")
     probes = []
     for c in REG.ALL_SPECS:
         if c.harness not in (None, "C01"):
